@@ -228,7 +228,7 @@ func LoadFindings(prop string) []Finding {
 }
 
 func (f *Finding) matches(v *Violation) bool {
-	if f.Kind != "" && f.Kind != v.Kind {
+	if !kindMatches(f.Kind, v.Kind) {
 		return false
 	}
 	if f.Tag == "" {
@@ -349,7 +349,7 @@ func Main(c *Check, env *Env, opts RunOpts) int {
 			r := runWitnessChild(c, env, opts, base, f.Witness, "w"+strconv.Itoa(i))
 			if r != nil && len(r.Violations) > 0 {
 				for _, v := range r.Violations {
-					if f.Kind == "" || v.Kind == f.Kind {
+					if kindMatches(f.Kind, v.Kind) {
 						witnessOK[f.ID] = true
 					}
 				}
@@ -378,6 +378,24 @@ func Main(c *Check, env *Env, opts RunOpts) int {
 		}
 	}
 
+	// triage summary: violations grouped by (kind, tags)
+	if len(unexplained) > 0 {
+		grp := map[string]int{}
+		for _, fv := range unexplained {
+			grp[fv.V.Kind+" "+strings.Join(fv.V.Tags, ",")]++
+		}
+		gk := make([]string, 0, len(grp))
+		for k := range grp {
+			gk = append(gk, k)
+		}
+		sort.Slice(gk, func(i, j int) bool { return grp[gk[i]] > grp[gk[j]] })
+		for i, k := range gk {
+			if i >= 40 {
+				break
+			}
+			fmt.Printf("  group %5d x %s\n", grp[k], k)
+		}
+	}
 	// violations
 	code := 0
 	seen := map[string]bool{}
@@ -392,7 +410,7 @@ func Main(c *Check, env *Env, opts RunOpts) int {
 		}
 		seen[name] = true
 		code = 1
-		if printed < 25 {
+		if printed < maxPrinted() {
 			dir := filepath.Join(VerifDir, "replays", c.ID)
 			os.MkdirAll(dir, 0755)
 			p := filepath.Join(dir, name+".json")
@@ -784,4 +802,30 @@ func writeEvidence(c *Check, env *Env, agg *Aggregate, known map[string]int, une
 	b, _ := json.MarshalIndent(ev, "", " ")
 	os.MkdirAll(filepath.Join(VerifDir, "evidence"), 0755)
 	os.WriteFile(filepath.Join(VerifDir, "evidence", c.ID+".json"), b, 0644)
+}
+
+func maxPrinted() int {
+	if v := os.Getenv("VERIF_MAXPRINT"); v != "" {
+		if n, err := strconv.Atoi(v); err == nil {
+			return n
+		}
+	}
+	return 25
+}
+
+// kindMatches: pattern is "" (any), or alternatives separated by "|", each exact or with a trailing "*".
+func kindMatches(pattern, kind string) bool {
+	if pattern == "" {
+		return true
+	}
+	for _, p := range strings.Split(pattern, "|") {
+		if strings.HasSuffix(p, "*") {
+			if strings.HasPrefix(kind, strings.TrimSuffix(p, "*")) {
+				return true
+			}
+		} else if p == kind {
+			return true
+		}
+	}
+	return false
 }
